@@ -19,6 +19,7 @@ TEXT = {
  "C14": ("Queries never modify the index", "effect contract FR-RO for every read-only Traph request and the trie/link-store read methods they reach (name-based call graph, over-approximate); proved: storage reads and node read/accessors leave store and node unchanged. Byte snapshots around every query: bounded stand-in.", "2.4, 5 C14"),
  "C15": ("Memory = file = mmap", "proved: MemoryStorage, FileStorage, MemMapStorage satisfy the same block-store contract at byte level; FR-SHAPE: every storage call site is accepted by every back-end's signature. Same histories on both back-ends, bytes compared: bounded stand-in.", "4.1, 5 C15"),
  "C16": ("Cooperative interleaving", "typestate contracts with every yield and, in generator requests, every loop back-edge making cached nodes Stale: every write is preceded by a refresh; proved node read/write contracts. All-schedule outcomes: bounded stand-in with every loop iteration a yield point (AST rewrite in the harness).", "3.5, 5 C16"),
+ "C17": ("Prefix variations", "proved: lru_variations raises nothing for ANY byte string (the host-list index and pop obligations), returns 1..4 entries the first of which is the input; https_variation returns None iff the scheme is neither http nor https and otherwise changes exactly the leading scheme stem (sequence identities, z3/cvc5). No duplicate, only scheme/www change, closure of the class and the consequence for automatic creation: bounded stand-in (grammar enumeration).", "4.4, 5 C17"),
  "C18": ("Torn write histories", "proved: LRUTrieNode.read raises nothing and returns the stored fields on any aligned block of ANY store (no invariant assumed); node write appends head then tails in order; check_for_corruption. Every cut of recorded write logs: bounded stand-in.", "3.4, 5 C18"),
  "C19": ("Storage accounting", "proved: chunk count, node write appends exactly 1+ceil(len(tail)/74) blocks, __ensure_stem_from_siblings allocates only when the stem is missing and then exactly the blocks of the stem, no unreferenced block (I5), count_blocks. Sizes vs formula after every step, lengths 1..231 swept: bounded stand-in.", "3.3 I5/I11, 5 C19"),
  "C20": ("Most-linked pages", "proved: inlinks accessors. Top-k/indegree/depth: bounded stand-in; one known finding (indegree 1 for a page without inbound links).", "5 C20, 6 D7"),
@@ -49,9 +50,7 @@ m = {
  ],
  "checks": checks,
  "notes": "See DESIGN.md. Exit 0 held / 1 violation / 3 checker error. known_findings.json lists the recorded finding (C20) and the repaired defects.",
- "not_applicable": [
-  {"property_id": "C17", "reason": "no contract within reach decides it: the statement is a set of byte-string identities over lru_variations/https_variation (replace/split/join over an unbounded number of stems); z3 and cvc5 time out on a single replace identity with two symbolic hosts (notes/s2.smt2), and length abstraction only yields exception-freedom. The bounded grammar enumeration (bounded/jobs.py job_variations) is run by tools but is not claimed as a check."},
- ],
+ "not_applicable": [],
 }
 json.dump(m, open('/verif/MANIFEST.json', 'w'), indent=1)
 print('checks', len(checks))
